@@ -13,8 +13,9 @@ theorem orientation_maps_cells (r : Region) (imgW imgH o : Nat) (ho1 : 1 ≤ o) 
     (r.applyOrientation imgW imgH o).width * (r.applyOrientation imgW imgH o).height = r.width * r.height := by
   have ho : o = 1 ∨ o = 2 ∨ o = 3 ∨ o = 4 ∨ o = 5 ∨ o = 6 ∨ o = 7 ∨ o = 8 := by omega
   unfold Mem at h
+  have hne : ¬ (r.width = 0 ∨ r.height = 0) := by omega
   rcases ho with rfl | rfl | rfl | rfl | rfl | rfl | rfl | rfl <;>
-  (simp only [applyOrientation, orientedSize, orientPoint, Mem]
+  (simp only [applyOrientation, hne, if_false, orientedSize, orientPoint, Mem]
    simp
    split <;> split <;> (try simp) <;> (first | (constructor <;> first | omega | (congr 1 <;> omega) | (rw [Nat.mul_comm]; congr 1 <;> omega)) | omega))
 
